@@ -436,3 +436,28 @@ Proof.
     vm_compute. reflexivity.
   - apply (writable_sound _ _ _ _ _ ev_store_acyclic B). vm_compute. reflexivity.
 Qed.
+
+(* ================================================================== formula variables *)
+(* [vars nd] holds the node of EVERY <pVariable>, whatever accessor its name carries (X, X.Value,
+   X.Min, X.Max, X.Inc, X.Enum.E): a formula node is reported readable — and a converter writable —
+   only if each of these nodes is reported readable. *)
+Theorem variable_sources : forall s rank F st n nd m, Acyclic s rank -> (forall x, rank x < F) ->
+  nth_error s n = Some nd -> In m (vars nd) ->
+  (nkind nd = KSwissKnife \/ nkind nd = KIntSwissKnife \/ nkind nd = KConverter \/ nkind nd = KIntConverter ->
+   is_readable fixed_cfg s F st n = Ok true -> is_readable fixed_cfg s F st m = Ok true) /\
+  (nkind nd = KConverter \/ nkind nd = KIntConverter ->
+   is_writable fixed_cfg s F st n = Ok true -> is_readable fixed_cfg s F st m = Ok true).
+Proof.
+  intros s rank F st n nd m Hac HF E Hm. split; intros K H.
+  - apply (readable_iff s rank F st n Hac HF) in H. apply (readable_iff s rank F st m Hac HF).
+    inversion H; subst;
+      match goal with X : nth_error s n = Some ?nd' |- _ => rewrite E in X; injection X as <- end;
+      try (exfalso; destruct (nkind nd); simpl in *; intuition discriminate).
+    + match goal with V : VarsOk _ _ (vars nd) |- _ => apply (V m Hm) end.
+    + match goal with V : VarsOk _ _ (vars nd) |- _ => apply (V m Hm) end.
+  - apply (writable_sound s rank F st n Hac HF) in H. apply (readable_iff s rank F st m Hac HF).
+    inversion H; subst;
+      match goal with X : nth_error s n = Some ?nd' |- _ => rewrite E in X; injection X as <- end;
+      try (exfalso; destruct (nkind nd); simpl in *; intuition discriminate).
+    match goal with V : VarsOk _ _ (vars nd) |- _ => apply (V m Hm) end.
+Qed.
